@@ -371,3 +371,58 @@ func VerifC18DirectNoStaticTools() {
 	vassert(rerr == nil && out != nil, "the run succeeds")
 	vassert(out.Content == want && mdl.calls == 1, "the result of the return-directly tool is the answer, without another model call")
 }
+
+// Call ids are whatever the model produced: empty (some providers give none) or repeated. One assistant message with
+// two calls, ids drawn from {"", "c1"} independently; the answer is the result of the first call whose tool is marked
+// return-directly, and the model is not asked again.
+func VerifC18CallIDs() {
+	ctx := context.Background()
+	vcfg("fifo", 1)
+	vcfg("selectfirst", 1)
+	ids := []string{"", "c1"}
+	names := []string{"t0", "t1"}
+	i0, i1 := 0, 1
+	n0, n1 := names[vchoose("tool0", 2)], names[vchoose("tool1", 2)]
+	id0, id1 := ids[vchoose("id0", 2)], ids[vchoose("id1", 2)]
+	script := []*schema.Message{
+		{Role: schema.Assistant, Content: "call", ToolCalls: []schema.ToolCall{
+			{Index: &i0, ID: id0, Function: schema.FunctionCall{Name: n0, Arguments: "x"}},
+			{Index: &i1, ID: id1, Function: schema.FunctionCall{Name: n1, Arguments: "y"}}}},
+		{Role: schema.Assistant, Content: "final"},
+	}
+	mdl := &c18Model{script: script, chunking: []int{vchoose("chunking", 3), 0}}
+	direct := map[string]struct{}{names[vchoose("direct", 2)]: {}}
+	var runs []string
+	ag, err := NewAgent(ctx, &AgentConfig{ToolCallingModel: mdl, MaxStep: 8, ToolReturnDirectly: direct,
+		ToolsConfig: compose.ToolsNodeConfig{Tools: []tool.BaseTool{&c18Tool{"t0", &runs}, &c18StreamTool{"t1", &runs}}}})
+	vassert(err == nil, "agent is created")
+	want, wantCalls := "final", 2
+	if _, ok := direct[n0]; ok {
+		want, wantCalls = c18Out(n0, "x"), 1
+	} else if _, ok := direct[n1]; ok {
+		want, wantCalls = c18Out(n1, "y"), 1
+	}
+	var out *schema.Message
+	var rerr error
+	if vchoose("stream", 2) == 1 {
+		sr, e := ag.Stream(ctx, []*schema.Message{schema.UserMessage("q")})
+		rerr = e
+		if e == nil {
+			var chunks []*schema.Message
+			for i := 0; i < 8; i++ {
+				c, e := sr.Recv()
+				if e != nil {
+					break
+				}
+				chunks = append(chunks, c)
+			}
+			sr.Close()
+			out, rerr = schema.ConcatMessages(chunks)
+		}
+	} else {
+		out, rerr = ag.Generate(ctx, []*schema.Message{schema.UserMessage("q")})
+	}
+	vassert(rerr == nil && out != nil, "the run succeeds whatever the call ids are")
+	vassert(mdl.calls == wantCalls, "a call to a return-directly tool ends the run without another model call, whatever its id")
+	vassert(out.Content == want, "the answer is the result of the first return-directly call (or the final assistant message)")
+}
